@@ -48,9 +48,10 @@ class Link:
         return [t for t in threading.enumerate() if "protocol_dispatcher" in t.name and t.is_alive()]
 
     def reply_frame(self, system, marker, w=False):
-        # w: a primary of the peer (S1F13 with W-bit) instead of a reply (S1F2)
+        # w: a primary of the peer instead of a reply (S1F2): S1F13 with W-bit, or - for odd markers - without (a primary that
+        # expects no reply, like S6F11 / S5F1 sent without W-bit)
         body = self.sf.function(1, 13 if w else 2)([str(marker), "v"]).encode()
-        return gemrig.data_frame(1, 13 if w else 2, system, body, w)
+        return gemrig.data_frame(1, 13 if w else 2, system, body, bool(w) and marker % 2 == 0)
 
 
 def parked(proto, system):
